@@ -5,6 +5,7 @@ from ..core import AnalysisError, src
 from ..pysym import SymExec, show, subterms, str_parts, all_calls
 from ..rules_pyx import N, C, A
 from .. import codec
+from .. import logic
 
 EXPLANATION = (
     'Field-by-field agreement between the templates of auto_of and the cursor program of _AutoLineReader: R8.1 the leaf '
@@ -134,10 +135,10 @@ def check(repo, rep, tier):
               'R8.1', w, 'auto_of:leaf-template', 'leaf record is "(<L cat pos pos word cat>)": %s' % [codec.tok_text(t) for t in ltoks],
               'leaf record fields are %s' % [codec.tok_text(t) for t in ltoks])
     rm = repo.module(RD)
-    pl = rm.get('_AutoLineReader.parse_leaf')
-    cur = codec.Cursor(pl)
-    wr = '%s:%s _AutoLineReader.parse_leaf' % (RD, pl.lineno)
-    ok_paths = [(st, o) for st, o in cur.paths if o == 'return']
+    # all paths through "read one node" of the line reader, however it is divided into methods (codec.ReaderPaths)
+    rdp = codec.ReaderPaths(rm, '_AutoLineReader')
+    wr = '%s:%s _AutoLineReader (leaf records)' % (RD, rdp.entry.lineno)
+    ok_paths = rdp.by_kind['leaf']
     for st, o in ok_paths:
         nreads = st.data.get('k', 0)
         rep.check(nreads == len(ltoks), 'R8.1', wr, 'parse_leaf:field-count',
@@ -174,14 +175,22 @@ def check(repo, rep, tier):
                       'the leaf carries the token built from these fields', 'the leaf is built from %s' % show(mk[0][2][0])[:60])
         else:
             rep.violation('R8.1', wr, 'parse_leaf:shape', 'parse_leaf does not build exactly one token / category / terminal per record')
-        checks = sorted((show(e[1][2][0]), show(e[1][2][1]) if len(e[1][2]) > 1 else '0') for e in st.events
-                        if e[0] == 'call' and e[1][1] == A(N('self'), 'check'))
-        rep.check(checks == sorted([("'('", '0'), ("'<'", '1'), ("'L'", '2')]), 'R8.1', wr, 'parse_leaf:marker',
-                  'parse_leaf verifies the marker "(<L" the writer emits', 'parse_leaf checks %s' % checks)
+        checks = {(show(e[1][2][0]), show(e[1][2][1]) if len(e[1][2]) > 1 else '0') for e in st.events
+                  if e[0] == 'call' and e[1][1] == A(N('self'), 'check')}
+        # ... a character the dispatch has already compared counts as verified
+        for c_, pol_, _n in st.conds:
+            if pol_ and c_[0] == 'cmp' and c_[1] == '==' and c_[3][0] == 'const' and c_[2][0] == 'sub' and c_[2][1] == A(N('self'), 'line'):
+                i_ = c_[2][2]
+                off = '0' if i_ == A(N('self'), 'index') else (show(i_[3]) if i_[0] == 'binop' and i_[1] == '+' and i_[2] == A(N('self'), 'index') else None)
+                if off is not None:
+                    checks.add((show(c_[3]), off))
+        checks = sorted(checks)
+        rep.check(set(checks) >= {("'('", '0'), ("'<'", '1'), ("'L'", '2')}, 'R8.1', wr, 'parse_leaf:marker',
+                  'the leaf reader verifies the marker "(<L" the writer emits', 'the leaf reader checks %s' % checks)
     # next() cuts a field at the next blank; the record that ends the line has none after its last field (find() gives -1 and
     # the slice drops the field's last character).  A leaf can be the whole line, so the value of its last field must not
     # decide anything.
-    for st, o in cur.paths:
+    for st, o in ok_paths:
         k = st.data.get('k', 0)
         if not k:
             continue
@@ -214,11 +223,10 @@ def check(repo, rep, tier):
             g[1][0] == 'call' and g[1][2] and g[1][2][0][0] == 'elem'
         rep.check(sep_ok and rec_ok, 'R8.2', w, 'auto_of:children', 'children are rendered recursively, all of node.children in order, separated by one blank',
                   'children field is %s' % show(j)[:100])
-    pt = rm.get('_AutoLineReader.parse_tree')
-    wt_ = '%s:%s _AutoLineReader.parse_tree' % (RD, pt.lineno)
-    cur = codec.Cursor(pt)
+    wt_ = '%s:%s _AutoLineReader (node records)' % (RD, rdp.entry.lineno)
     seen_bin = seen_un = False
-    for st, o in cur.paths:
+    # (returning paths that read a node record without building a node of their own are judged too: 'other')
+    for st, o in rdp.node_paths() + [(st_, o_) for st_, o_ in rdp.by_kind['other'] if o_ == 'return']:
         if o != 'return':
             continue
         mkb = [e[1] for e in st.events if e[0] == 'call' and e[1][1] == A(N('Tree'), 'make_binary')]
@@ -245,7 +253,7 @@ def check(repo, rep, tier):
             rep.check(mkb[0][2][0] == catp[0], 'R8.2', wt_, 'parse_tree:binary-cat', 'the node category is the parsed field', 'node category is %s' % show(mkb[0][2][0])[:60])
         if mku:
             seen_un = True
-        r_ = st.ret
+        r_ = codec.ReaderPaths.value_of(st)
         built = r_ is not None and r_[0] == 'call' and r_[1] in (A(N('Tree'), 'make_binary'), A(N('Tree'), 'make_unary')) and \
             (r_[2][0] if r_[2] else dict(r_[3]).get('cat')) == catp[0]
         rep.check(built, 'R8.2', wt_, 'parse_tree:node-kept', 'every node record read yields a node of its own, carrying the category of the record',
@@ -253,7 +261,7 @@ def check(repo, rep, tier):
     rep.check(seen_bin and seen_un, 'R8.2', wt_, 'parse_tree:arity', 'both unary and binary nodes are rebuilt', 'binary path: %s, unary path: %s' % (seen_bin, seen_un))
     # child loop: read children until the closing bracket, then consume it
     loop_ok = False
-    for st, o in cur.paths:
+    for st, o in rdp.node_paths():
         if o != 'return':
             continue
         enter = [i for i, e in enumerate(st.events) if e[0] == 'loop-enter']
@@ -263,23 +271,29 @@ def check(repo, rep, tier):
         c = st.events[enter[0]][1]
         test_ok = c in (('cmp', '!=', ('call', A(N('self'), 'peek'), (), ()), C(')')),)
         inside = st.events[enter[0]:exit_[0]]
-        child = [e for e in inside if e[0] == 'call' and e[1][1] == A(N('self'), 'next_node')]
+        # the child is read by the reader's own "read one node": a call of the dispatch / of the leaf or node reader
+        # (with a dispatch that only chooses, the choice is visible as one value calling one of the alternatives)
+        appended = [e for e in inside if e[0] == 'call' and e[1][1][0] == 'attr' and e[1][1][2] == 'append']
+        child = appended if len(appended) == 1 else [e for e in inside if e[0] == 'call' and e[1][1][0] == 'attr' and e[1][1][1] == N('self')
+                                                      and e[1][1][2] not in ('next', 'peek', 'check')]
         nexts_in = [e for e in inside if e[0] == 'call' and e[1][1] == A(N('self'), 'next')]
         nexts_after = [e for e in st.events[exit_[0]:] if e[0] == 'call' and e[1][1] == A(N('self'), 'next')]
         if test_ok and len(child) == 1 and not nexts_in and len(nexts_after) == 1:
             loop_ok = True
     rep.check(loop_ok, 'R8.2', wt_, 'parse_tree:child-loop', 'children are read with next_node() until the closing bracket, which is then consumed by one cursor read',
               'child loop is not `while self.peek() != ")": next_node()` followed by exactly one cursor read')
-    # dispatch on the marker
-    nn = rm.get('_AutoLineReader.next_node')
-    disp = {}
-    for st, o in SymExec(nn).run():
-        for c, pol, _ in st.conds:
-            if pol and c[0] == 'cmp' and c[1] == '==' and c[3][0] == 'const' and c[2] == ('sub', A(N('self'), 'line'), ('binop', '+', A(N('self'), 'index'), C(2))):
-                disp[c[3][1]] = st.ret if o == 'return' else o
-    rep.check(disp.get('L') == A(N('self'), 'parse_leaf') and disp.get('T') == A(N('self'), 'parse_tree'), 'R8.2',
-              '%s:%s _AutoLineReader.next_node' % (RD, nn.lineno), 'next_node:dispatch',
-              'records are dispatched on the marker letter at offset 2: L -> parse_leaf, T -> parse_tree', 'next_node dispatch is %s' % {k: show(v) if isinstance(v, tuple) else v for k, v in disp.items()})
+    # dispatch on the marker: leaf paths have established line[index+2] == 'L', node paths == 'T', everything else fails
+    marker = ('sub', A(N('self'), 'line'), ('binop', '+', A(N('self'), 'index'), C(2)))
+
+    def letter(st):
+        conds = [(c, pol) for c, pol, _ in st.conds]
+        return {ch for ch in ('L', 'T') if logic.implied(conds, logic.formula(('cmp', '==', marker, C(ch))))}
+    okd = bool(rdp.by_kind['leaf']) and bool(rdp.node_paths()) and all(letter(st) == {'L'} for st, o in rdp.by_kind['leaf']) and \
+        all(letter(st) == {'T'} for st, o in rdp.node_paths())
+    rep.check(okd, 'R8.2', '%s:%s _AutoLineReader' % (RD, rdp.entry.lineno), 'next_node:dispatch',
+              'records are dispatched on the marker letter at offset 2: L -> leaf, T -> node',
+              'leaf / node records are not told apart by the marker letter at offset 2 (leaf paths saw %s, node paths %s)'
+              % (sorted({x for st, o in rdp.by_kind['leaf'] for x in letter(st)}), sorted({x for st, o in rdp.node_paths() for x in letter(st)})))
     # conll fragments
     cm = repo.module(CONLL)
     crec = cm.get('conll_of.rec')
